@@ -126,6 +126,7 @@ static void apply_action(tk *t, int act) {
 	}
 }
 
+static int g_enobufs_cb;   /* callbacks that were told ENOBUFS (only an injected fault produces it here) */
 static int cb_common_entry(tk *t, const char *what) {
 	if (sim_faults_fired() > 0) t->faults_seen = 1;
 	if (!own_thread(t)) { sim_violation("io-wrong-thread", "task %d: %s callback ran on a thread other than the task's", t->slot, what); return -1; }
@@ -146,6 +147,7 @@ static int stream_cb(tp_task_p tptask, int error, io_buf_p buf, uint32_t eof, si
 	int act;
 	if ((uintptr_t)udata < (uintptr_t)&T[0] || (uintptr_t)udata >= (uintptr_t)&T[MAX_TASK]) { sim_violation("io-bad-arg", "task callback with unknown user data"); return TP_TASK_CB_NONE; }
 	if (cb_common_entry(t, "stream")) return TP_TASK_CB_NONE;
+	if (error == ENOBUFS) g_enobufs_cb++;
 	sim_log("task %d cb#%d error=%d eof=%x transfered=%zu off=%zu used=%zu tr=%zu", t->slot, t->ncb, error, eof, transfered_size, buf ? buf->offset : 0, buf ? buf->used : 0, buf ? buf->transfer_size : 0);
 	if (tptask != t->task || buf != &t->buf) { sim_violation("io-bad-arg", "task %d: callback received another task/buffer", t->slot); return TP_TASK_CB_NONE; }
 	if (buf->offset > buf->size || buf->used > buf->size || buf->offset + buf->transfer_size > buf->size) {
@@ -249,6 +251,7 @@ static int stream_cb(tp_task_p tptask, int error, io_buf_p buf, uint32_t eof, si
 static int dgram_cb(tp_task_p tptask, int error, struct sockaddr_storage *addr, io_buf_p buf, size_t transfered_size, void *udata) {
 	tk *t = udata;
 	if (cb_common_entry(t, "datagram")) return TP_TASK_CB_NONE;
+	if (error == ENOBUFS) g_enobufs_cb++;
 	if (tptask != t->task || buf != &t->buf) { sim_violation("io-bad-arg", "task %d: callback received another task/buffer", t->slot); return TP_TASK_CB_NONE; }
 	if (error == ETIMEDOUT) {
 		t->timeouts++;
@@ -346,6 +349,7 @@ static int accept_cb(tp_task_p tptask, int error, uintptr_t skt_new, struct sock
 	tk *t = udata;
 	(void)addr;
 	if (cb_common_entry(t, "accept")) return TP_TASK_CB_NONE;
+	if (error == ENOBUFS) g_enobufs_cb++;
 	if (tptask != t->task) { sim_violation("io-bad-arg", "task %d: accept callback received another task", t->slot); return TP_TASK_CB_NONE; }
 	if (error == ETIMEDOUT) {
 		t->timeouts++;
@@ -450,6 +454,8 @@ static void buf_setup(tk *t, const item_t *it) {
 	t->buf.data = t->mem + CANARY; t->buf.size = size; t->buf.flags = 0;
 	t->buf.offset = off; t->buf.transfer_size = tr;
 	t->buf.used = (t->kind == K_SEND) ? off + tr : off;
+	/* the window need not sit at the fill mark: a receive window may start beyond it, a send window may reach beyond it */
+	{ size_t ug = (size_t)item_get(it, "ugap", 0); if (ug) { size_t base = (t->kind == K_SEND) ? tr : off; t->buf.used -= ug % (base + 1); } }
 	if (t->kind == K_SEND) for (size_t i = 0; i < tr; i++) t->buf.data[off + i] = pay(t->slot, i);
 	t->init_off = off; t->init_tr = tr; t->init_used = t->buf.used; t->last_off = off; t->done = 0;
 }
@@ -834,6 +840,7 @@ static void c16_gen(plan_t *p, rng_t *r, int tier) {
 		item_set(&op->it, "off", (long long)off);
 		item_set(&op->it, "tr", (long long)tr);
 		item_set(&op->it, "cbs", (long long)rng_below(r, 1u << 30));
+		if (rng_chance(r, 250)) item_set(&op->it, "ugap", 1 + (long long)rng_below(r, 64));
 		item_set(&op->it, "sfio", rng_chance(r, 700));
 		if (!item_get(&op->it, "sfio", 1) && rng_chance(r, 400)) item_set(&op->it, "hsw", 1);
 		if (kind == K_RECV && rng_chance(r, 400)) item_set(&op->it, "pre", (long long)rng_range(r, 1, 400));
@@ -889,6 +896,7 @@ static void c16_pre(const plan_t *p) {
 	sim_knobs.pipe_size = 65536;
 	world_op_exec = c16_exec;
 	memset(T, 0, sizeof(T));
+	g_enobufs_cb = 0;
 	PW = &W.pool[0];
 }
 
@@ -980,6 +988,12 @@ static void *c16_root(void *arg) {
 			sim_violation("io-timeout-missed", "task %d: armed with a %llu ms timeout, idle since %llu ns, now %llu ns, but no timeout was reported", s, (unsigned long long)t->timeout_ms, (unsigned long long)t->last_arm, (unsigned long long)sim_now());
 			break;
 		}
+	}
+	/* a transfer call that failed with a real error (not "try again") is reported to the callback, every time */
+	if (!sim_violated()) {
+		int inj = sim_fault_fired_err("recv", ENOBUFS) + sim_fault_fired_err("send", ENOBUFS) + sim_fault_fired_err("recvfrom", ENOBUFS) + sim_fault_fired_err("accept4", ENOBUFS);
+		if (g_enobufs_cb < inj) sim_violation("io-error-swallowed", "%d transfer call(s) failed with ENOBUFS (injected) but only %d callback(s) were told that error", inj, g_enobufs_cb);
+		else if (inj) sim_probe("c16.hard_error_reported");
 	}
 	/* send side: what reached the wire equals the window prefix that the callbacks were told about (checked in the peer) */
 	/* destroy what is left on the owning thread is not needed: sim_end tears everything down */
